@@ -4,7 +4,7 @@
 // after end of input was signalled and every emitted item left the last filter.  DESIGN.md s.6 C07.
 //
 // program text:
-//   pipe par=<1..4, 10..12> ntok=<1..16> n=<0..40> nf=<1..6> split=<1..nf> form=<0..3> stopw=<k> rounds=<1|2>
+//   pipe par=<1..4, 10..12> ntok=<1..16> n=<0..40> nf=<1..6> split=<1..nf> form=<0..3> stopw=<k> rounds=<1|2> tokx=<0, 1..5 huge token limit> nest=<stage:item,...|->   (nest: that invocation runs a nested parallel_for)
 //   f <stage> <mode p|i|o> <link 0|1|2> <ctor 0|1> w0 w1 ... w(n-1)
 // mode  p parallel, i serial_in_order, o serial_out_of_order
 // link  type of the value this filter hands to the next one: 0 int (passed inside the void*; id 0 is a
@@ -16,6 +16,9 @@
 // stopw work inside the input-filter invocation that signals flow_control::stop()
 // rounds 2 = the same filter chain object is run a second time (same oracles, fresh logs)
 #include "oneapi/tbb/parallel_pipeline.h"
+#include "oneapi/tbb/parallel_for.h"
+#include <set>
+#include <regex>
 #include "oneapi/tbb/global_control.h"
 #include "../engine/drv/drv.h"
 
@@ -36,8 +39,12 @@ std::string h_gen(Src& s) {
     int form = (int)s.choose(4); if (split == nf && form >= 2) form -= 2;
     int stopw = s.coin(3) ? s.range(0, 20) : 0;
     int rounds = s.coin(5) ? 2 : 1;
+    int tokx = s.coin(12) ? s.range(1, 5) : 0;        // "unlimited": SIZE_MAX, 2^63, 2^63-1, 2^32+1, 2^31 live tokens
+    // filter bodies that run a nested blocking loop: the waiting thread re-enters the pipeline's own tasks (also the one that signals stop())
+    std::string nest = "-";
+    if (n > 0 && s.coin(4)) { nest = ""; int k = s.range(1, 3); for (int i = 0; i < k; i++) nest += (i ? "," : "") + std::to_string(s.coin(2) ? 0 : s.range(0, nf - 1)) + ":" + std::to_string(s.range(0, n - 1)); }
     std::string o = "pipe par=" + std::to_string(par) + " ntok=" + std::to_string(ntok) + " n=" + std::to_string(n) + " nf=" + std::to_string(nf) +
-                    " split=" + std::to_string(split) + " form=" + std::to_string(form) + " stopw=" + std::to_string(stopw) + " rounds=" + std::to_string(rounds) + "\n";
+                    " split=" + std::to_string(split) + " form=" + std::to_string(form) + " stopw=" + std::to_string(stopw) + " rounds=" + std::to_string(rounds) + " tokx=" + std::to_string(tokx) + " nest=" + nest + "\n";
     // work profile of the whole case: uniform small / mixed / a few very slow items (a slow item in a parallel stage lets many later ones park behind it)
     // profile 3: the earlier an item, the slower it is in every parallel stage, so late items reach the next serial stage first (far ahead of the lowest token)
     int prof = (int)s.weighted({ 1, 4, 4, 3 }); if (wide) prof = 3;
@@ -63,7 +70,7 @@ std::string h_gen(Src& s) {
 // ------------------------------------------------------------------ oracle state (plain memory: only the baton holder runs)
 struct Inv { int id; uint64_t t_in, t_out; };
 struct Stage { char mode = 'p'; int link = 0, ctor = 0; std::vector<int> w; std::vector<Inv> log; std::vector<int> count, done; int inside = 0; };
-static std::vector<Stage> F; static int g_n, g_nf, g_ntok, g_split, g_form, g_stopw;
+static std::vector<Stage> F; static int g_n, g_nf, g_ntok, g_split, g_form, g_stopw; static size_t g_ntok_arg = 1; static std::set<std::pair<int, int>> g_nest; static long g_nested_runs = 0, g_nested_reentry = 0; static int g_in_nested = 0;
 static int g_next = 0, g_live = 0, g_max_live = 0, g_stops = 0; static bool g_returned = false; static uint64_t g_first_stop = 0; static long g_after_stop = 0;
 static long g_big_live = 0, g_big_made = 0, g_other_thread = 0;
 
@@ -105,7 +112,12 @@ static void leave(int s, int id, size_t slot) {
     if (st.mode != 'p') st.inside--;
     if (s == g_nf - 1) g_live--;
 }
-static void body(int s, int id) { enter(s, id); size_t slot = F[s].log.size() - 1; vs_work(F[s].w[id]); leave(s, id, slot); }
+static void body(int s, int id) {
+    enter(s, id); size_t slot = F[s].log.size() - 1; if (g_in_nested) g_nested_reentry++;
+    vs_work(F[s].w[id]);
+    if (g_nest.count({ s, id })) { g_nested_runs++; g_in_nested++; tbb::parallel_for(0, 3, [&](int) { vs_work(2 + F[s].w[id] / 4); }, tbb::simple_partitioner()); g_in_nested--; }
+    leave(s, id, slot);
+}
 // the input-filter invocation that finds no more input
 static void stop_invocation(tbb::flow_control& fc) {
     if (g_returned) vs_violation("BODY-AFTER-RETURN", "the input filter was invoked after parallel_pipeline returned");
@@ -156,8 +168,8 @@ static int g_rounds = 1;
 static void run_chain(const tbb::filter<void, void>& chain) {
     for (int rd = 0; rd < g_rounds; rd++) {
         if (rd) reset_round();
-        if (g_form & 1) { tbb::task_group_context ctx; tbb::parallel_pipeline((size_t)g_ntok, chain, ctx); }
-        else tbb::parallel_pipeline((size_t)g_ntok, chain);
+        if (g_form & 1) { tbb::task_group_context ctx; tbb::parallel_pipeline(g_ntok_arg, chain, ctx); }
+        else tbb::parallel_pipeline(g_ntok_arg, chain);
         g_returned = true; judge_round(rd);
     }
 }
@@ -165,8 +177,8 @@ template <class T> static void run_two(const tbb::filter<void, T>& left, const t
     if (g_form < 2) { run_chain(left & right); return; }
     for (int rd = 0; rd < g_rounds; rd++) {
         if (rd) reset_round();
-        if (g_form & 1) { tbb::task_group_context ctx; tbb::parallel_pipeline((size_t)g_ntok, left, right, ctx); }
-        else tbb::parallel_pipeline((size_t)g_ntok, left, right);
+        if (g_form & 1) { tbb::task_group_context ctx; tbb::parallel_pipeline(g_ntok_arg, left, right, ctx); }
+        else tbb::parallel_pipeline(g_ntok_arg, left, right);
         g_returned = true; judge_round(rd);
     }
 }
@@ -233,6 +245,9 @@ void h_run(Case& c) {
         if (w[0] == "pipe") {
             par = (int)kvl(l, "par", 2); g_ntok = (int)kvl(l, "ntok", 1); g_n = (int)kvl(l, "n", 0); g_nf = (int)kvl(l, "nf", 1); g_split = (int)kvl(l, "split", 1);
             g_form = (int)kvl(l, "form", 0); g_stopw = (int)kvl(l, "stopw", 0); g_rounds = (int)kvl(l, "rounds", 1);
+            g_ntok_arg = (size_t)g_ntok; static const size_t HUGE_TOK[] = { ~(size_t)0, (size_t)1 << 63, ((size_t)1 << 63) - 1, ((size_t)1 << 32) + 1, (size_t)1 << 31 };
+            int tokx = (int)kvl(l, "tokx", 0); if (tokx >= 1 && tokx <= 5) { g_ntok_arg = HUGE_TOK[tokx - 1]; g_ntok = 0x7fffffff; }
+            std::string ns = kvs(l, "nest", "-"); if (ns != "-") for (auto& e : split_ws(std::regex_replace(ns, std::regex(","), " "))) { size_t p = e.find(':'); if (p != std::string::npos) g_nest.insert({ atoi(e.c_str()), atoi(e.c_str() + p + 1) }); }
         } else if (w[0] == "f" && w.size() >= 5) {
             int s = atoi(w[1].c_str()); if ((int)F.size() <= s) F.resize(s + 1);
             F[s].mode = w[2][0]; F[s].link = atoi(w[3].c_str()); F[s].ctor = atoi(w[4].c_str());
@@ -261,7 +276,7 @@ void h_run(Case& c) {
     vs_stat_add("n_items", g_n); vs_stat_add("n_body_on_worker", g_other_thread); if (g_other_thread) vs_stat_flag("worker_ran_filter"); vs_stat_add("n_overtake_in_stage", n_overtake_in); vs_stat_add("n_reorder_between", n_reorder_between);
     vs_stat_add("n_parked_inorder", n_parked); vs_stat_add("n_ring_grew", n_grew); vs_stat_add("n_after_stop", g_after_stop); vs_stat_max("max_live", g_max_live);
     if (n_overtake_in) vs_stat_flag("overtake_inside_stage"); if (n_reorder_between) vs_stat_flag("reordered_between_stages"); if (n_parked) vs_stat_flag("parked_for_inorder");
-    if (n_grew) vs_stat_flag("ring_grew_while_parked"); if (g_after_stop) vs_stat_flag("input_after_stop"); if (g_max_live == g_ntok && g_n > 0) vs_stat_flag("token_limit_reached"); if (g_stops > 1) vs_stat_flag("several_stop_invocations");
+    if (g_nested_runs) vs_stat_flag("nested_loop_in_filter_body"); if (g_nested_reentry) vs_stat_flag("filter_invoked_inside_nested_wait"); if (g_ntok_arg > 0x7fffffff) vs_stat_flag("huge_token_limit"); if (n_grew) vs_stat_flag("ring_grew_while_parked"); if (g_after_stop) vs_stat_flag("input_after_stop"); if (g_max_live == g_ntok && g_n > 0) vs_stat_flag("token_limit_reached"); if (g_stops > 1) vs_stat_flag("several_stop_invocations");
     if (g_n == 0) vs_stat_flag("empty_input"); if (g_rounds > 1) vs_stat_flag("chain_reused");
     vs_stat_add("nt", (n_overtake_in + n_reorder_between) > 0 ? 1 : 0);
     vs_ok();
